@@ -623,13 +623,20 @@ func (w *Worker) runOnce() (cres ConcreteResult) {
 	}
 	e.mu.Unlock()
 	// one sample per few paths: a satisfying assignment of the completed path
-	if outcome == "completed" && len(i.vars) > 0 {
+	if outcome == "completed" && (len(i.vars) > 0 || len(i.trace) > 0) {
 		e.mu.Lock()
 		n := e.PathsByHarn[i.harness]
-		want := len(e.Samples) < 60 && (n == 1 || n == 5 || n == 23 || n == 101 || n == 499 || n == 2003)
+		want := len(e.Samples) < 80 && (n == 1 || n == 5 || n == 23 || n == 57 || n == 101 || n == 499 || n == 2003)
 		e.mu.Unlock()
 		if want {
-			if res, model := w.solver.Check(nil, i.vars); res == "sat" {
+			model := map[string]string{}
+			ok := true
+			if len(i.vars) > 0 {
+				var res string
+				res, model = w.solver.Check(nil, i.vars)
+				ok = res == "sat"
+			}
+			if ok {
 				model["_harness"] = i.harness
 				model["_decisions"] = strings.Join(i.trace, " ")
 				e.mu.Lock()
